@@ -7,6 +7,7 @@
 //                 P  real pipe, a writer thread write()s the data in <chunks>-sized pieces (kernel decides the reads)
 //                 MF regular file (descriptor handed to FilePiece) on which every mmap() fails with ENODEV, as on file systems
 //                    that cannot be mapped: MMapShift's catch block -> TransitionToRead from offset 0; read() lengths by <chunks>
+//                 MO regular file, descriptor positioned at offset <chunks field> behind a header; MOZ: the header starts with the gzip magic
 //                 I  std::istream
 //                 ZM compressed bytes <comphex> in a regular file (mmap, magic detection, transition to read)
 //                 ZR compressed bytes through the chunk-dictated pipe
@@ -156,6 +157,7 @@ void writer_thread(int fd, std::string data, std::vector<size_t> chunks) {
 
 void run_ops(util::FilePiece &f, const std::string &ops, std::ostream &o) {
   bool first = true;
+  const uint64_t base = f.Offset();   // offsets are reported relative to where the input starts (0 except for a descriptor handed over at an offset)
   for (size_t k = 0; k < ops.size(); ++k) {
     if (!first) o << ' ';
     first = false;
@@ -186,7 +188,7 @@ void run_ops(util::FilePiece &f, const std::string &ops, std::ostream &o) {
       o << "EXC:" << w.substr(0, 80);
       return;
     }
-    o << '@' << std::hex << f.Offset();
+    o << '@' << std::hex << (f.Offset() - base);
   }
 }
 
@@ -206,6 +208,20 @@ void case_fp(std::istringstream &in, std::ostream &o) {
         unlink(name.c_str());
         run_ops(f, ops, o);
       }
+    } else if (backend == "MO" || backend == "MOZ") {
+      // a regular file handed over as a descriptor positioned at <chunks field> = offset: a header the caller has already
+      // consumed (text; MOZ: text that begins with the gzip magic), then the content -- plain bytes or compressed members
+      size_t offset = ch.empty() ? 0 : ch[0];
+      std::string header;
+      while (header.size() < offset) header += "header line the caller consumed 0123456789\n";
+      header.resize(offset);
+      if (backend == "MOZ" && offset >= 2) { header[0] = (char)0x1f; header[1] = (char)0x8b; }
+      std::string name = write_temp(header + unhex(comp == "-" ? plain : comp));
+      int fd = open(name.c_str(), O_RDONLY);
+      unlink(name.c_str());
+      if (fd < 0 || lseek(fd, (off_t)offset, SEEK_SET) != (off_t)offset) { perror("open/lseek"); exit(3); }
+      util::FilePiece f(fd, "c18-at-offset", NULL, min_buffer);
+      run_ops(f, ops, o);
     } else if (backend == "PF") {
       // a procfs file opened by name: "regular file" of size 0 whose zero-length mmap fails although read() delivers data;
       // the name follows the ops field (the plaintext field is what the harness read from it just before)
